@@ -96,11 +96,19 @@ pub open spec fn abs_accepted(g: &GeneratorState, m: AsmMnemonic, operand: ExprT
         ExprType::Absolute(n, eb, _) => {
             let v = g.compiler_state.var(n@);
             // the name is a declared variable (otherwise: a located error), and the access is one the memory class allows
+            let constant = match v.var_type {
+                VariableType::Char => !eb || high_byte,
+                VariableType::Short => eb && high_byte,
+                VariableType::CharPtr => (!eb && v.var_const) || (high_byte && eb),
+                _ => false,
+            };
             g.compiler_state.declared(n@) && !(m_rmw(m) && split_port(g, v)) && !(v.var_type == VariableType::CharPtr && eb && !v.var_const && !high_byte)
+            && !(constant && (m_store(m) || m_rmw(m)))
         }
         _ => true,
     }
 }
+#[verifier::external_body] pub fn text_is_immediate(s: &String) -> (r: bool) ensures r == (kind_of_text(s@) is Imm) { s.starts_with('#') }
 pub open spec fn is_store(m: AsmMnemonic) -> bool { m == STA || m == STX || m == STY }
 pub open spec fn split_port(g: &GeneratorState, v: Variable) -> bool {
     v.memory == VariableMemory::Superchip || (v.memory is MemoryOnChip && (g.bankswitching_scheme@ == "3E"@ || g.bankswitching_scheme@ == "3EP"@))
@@ -143,7 +151,7 @@ pub open spec fn caller_legal(g: &GeneratorState, m: AsmMnemonic, operand: ExprT
     let v = var_of(g, operand);
     match operand {
         ExprType::Label(_) => m_branch(m) || m == JMP || m == JSR,
-        ExprType::Immediate(_) => legal(m, Mode::Imm),
+        ExprType::Immediate(_) => legal(m, Mode::Imm) || m_store(m) || m_rmw(m),      // a store / read-modify-write on a constant: rejected by asm() itself
         ExprType::Tmp(_) => legal(m, Mode::Zp),
         ExprType::Nothing => legal(m, Mode::Implied),
         ExprType::A(_) => true,
@@ -155,17 +163,17 @@ pub open spec fn caller_legal(g: &GeneratorState, m: AsmMnemonic, operand: ExprT
                 VariableType::CharPtr => (!eight_bits && v.var_const) || (high_byte && eight_bits),
                 _ => false,
             };
-            if constant { legal(m, Mode::Imm) } else { legal(m, Mode::Abs) && m != JMP && m != JSR }
+            if constant { legal(m, Mode::Imm) || m_store(m) || m_rmw(m) } else { legal(m, Mode::Abs) && m != JMP && m != JSR }
         }
         ExprType::AbsoluteX(_) => {
             let constant = high_byte && v.var_type != VariableType::CharPtrPtr && v.var_type != VariableType::ShortPtr;
-            if constant { legal(m, Mode::Imm) } else { legal(m, Mode::AbsX) || m == STY || m == STX || m == LDX || m == CPX || m == CPY }
+            if constant { legal(m, Mode::Imm) || m_store(m) || m_rmw(m) } else { legal(m, Mode::AbsX) || m == STY || m == STX || m == LDX || m == CPX || m == CPY }
         }
         ExprType::AbsoluteY(_) => {
             let ptrptr = v.var_type == VariableType::CharPtrPtr || v.var_type == VariableType::ShortPtr;
             let constant = !ptrptr && high_byte;
             let indirect = !ptrptr && !high_byte && v.var_type == VariableType::CharPtr && !v.var_const;
-            if constant { legal(m, Mode::Imm) }
+            if constant { legal(m, Mode::Imm) || m_store(m) || m_rmw(m) }
             else if indirect { legal(m, Mode::IndY) || m == STX || m == STY || m == LDX || m == LDY || m == CPX || m == CPY }
             else { legal(m, Mode::AbsY) || m == STX || m == STY || m == LDY || m == CPY || m == CPX }
         }
@@ -197,6 +205,9 @@ ASM_HEADER = """
             emitted_one(old(self).out.code@, final(self).out.code@) ==> new_inst(old(self).out.code@, final(self).out.code@).protected == old(self).protected, //@ C18:asm-protected
             emitted_one(old(self).out.code@, final(self).out.code@) ==> new_inst(old(self).out.code@, final(self).out.code@).mnemonic == eff_mnemonic(mnemonic, *operand), //@ C13,C18:asm-mnemonic
             emitted_one(old(self).out.code@, final(self).out.code@) ==> legal(new_inst(old(self).out.code@, final(self).out.code@).mnemonic, assembler_mode(new_inst(old(self).out.code@, final(self).out.code@).mnemonic, kind_of_text(new_inst(old(self).out.code@, final(self).out.code@).dasm_operand@), sym_zp(old(self), *operand))), //@ C13:legal
+            // a store or a read-modify-write instruction is never emitted on a constant (`arr = 5`, `&x = 3`): such an operand is an error
+            emitted_one(old(self).out.code@, final(self).out.code@) ==> !(kind_of_text(new_inst(old(self).out.code@, final(self).out.code@).dasm_operand@) is Imm
+                && (m_store(new_inst(old(self).out.code@, final(self).out.code@).mnemonic) || m_rmw(new_inst(old(self).out.code@, final(self).out.code@).mnemonic))), //@ C13,C01:no-store-to-a-constant
             // `(p),Y` exists for a pointer in page zero only
             emitted_one(old(self).out.code@, final(self).out.code@) ==> (kind_of_text(new_inst(old(self).out.code@, final(self).out.code@).dasm_operand@) is IndY ==> sym_zp(old(self), *operand)), //@ C13:indirect-pointer-in-zero-page
             emitted_one(old(self).out.code@, final(self).out.code@) ==> new_inst(old(self).out.code@, final(self).out.code@).nb_bytes as nat == mode_len(assembler_mode(new_inst(old(self).out.code@, final(self).out.code@).mnemonic, kind_of_text(new_inst(old(self).out.code@, final(self).out.code@).dasm_operand@), sym_zp(old(self), *operand))), //@ C04,C03:nb
@@ -206,7 +217,7 @@ ASM_HEADER = """
             emitted_one(old(self).out.code@, final(self).out.code@) ==> (m_rmw(new_inst(old(self).out.code@, final(self).out.code@).mnemonic) && (operand is Absolute || operand is AbsoluteX || operand is AbsoluteY) ==> !split_port(old(self), var_of(old(self), *operand))), //@ C17:rmw
             emitted_one(old(self).out.code@, final(self).out.code@) ==> (plain_abs(old(self), mnemonic, *operand, high_byte) ==> new_inst(old(self).out.code@, final(self).out.code@).dasm_operand@ == operand->Absolute_0@), //@ C13,C18:text-abs-plain
             emitted_one(old(self).out.code@, final(self).out.code@) ==> (match mem_text(old(self), mnemonic, *operand, high_byte) { Some(t) => new_inst(old(self).out.code@, final(self).out.code@).dasm_operand@ =~= t, None => true }), //@ C17,C01:text-address
-            (operand is Nothing || operand is Immediate || operand is Tmp || operand is Label) ==> res is Ok, //@ C16:asm-total-simple
+            (operand is Nothing || (operand is Immediate && !(m_store(mnemonic) || m_rmw(mnemonic))) || operand is Tmp || operand is Label) ==> res is Ok, //@ C16:asm-total-simple
             (operand is A && mnemonic == LDA) ==> final(self).out.code@ == old(self).out.code@, //@ C13:asm-lda-a-emits-nothing
             operand is Absolute ==> ((res is Ok) == abs_accepted(old(self), mnemonic, *operand, high_byte)), //@ C13,C16:asm-abs-accepts
         decreases (if operand is A { 1nat } else { 0nat }),
@@ -319,6 +330,7 @@ def build(repo):
     # R5: dead local `s` and the get_mut tail
     asm.sub(r"^[ \t]*let mut s = mnemonic\.to_string\(\);\n[ \t]*if !dasm_operand\.is_empty\(\) \{\n[ \t]*s \+= \" \";\n[ \t]*s \+= &dasm_operand;\n[ \t]*\}\n", "", "R5-dead-local-s", expect=(0, 1))
     r5_current_function(asm)
+    asm.sub(r"\bdasm_operand\.starts_with\('#'\)", "text_is_immediate(&dasm_operand)", "R15 starts_with('#') -> shim (the text is an immediate operand)", expect=(0, 1))
     asm.sub(r"\(\*l\)\.to_string\(\)", "string_of(&*l)", "R11-to_string", expect=(0, 1))
     asm.sub(r"\bvariable\.to_string\(\)", "string_of(variable)", "R11-to_string", expect=(0, 8))
     fm = common.Fmt({"variable": ("str", "variable"), "offset": ("int", None), "off": ("int", None), "vx": ("int", None), "self.inline_label_counter": ("int", None)})
